@@ -1,6 +1,7 @@
 """C19 - options and constants are validated and completed consistently."""
 import itertools
 import math
+import warnings
 
 import numpy as np
 
@@ -69,6 +70,7 @@ PAIRS = _pair_list()
 PLAN = [("single", len(SINGLES), len(SINGLES)),
         ("pair", len(PAIRS), len(PAIRS)),
         ("subset", 400, 6000), ("unknown", 120, 600), ("npt_low", 80, 600),
+        ("npt_fixed", 80, 600), ("reuse", 60, 400),
         ("degenerate", 150, 1500),
         ("defaults", 4, 8)]
 EXHAUSTIVE = False
@@ -390,6 +392,84 @@ def run_case(case):
                                mechanism="degenerate:" + kind))
         nt = f"degenerate|{kind}|{name}|{pos}"
         sample = {"bounds": kind, "setting": name, "value": val}
+    elif fam == "npt_fixed":
+        # variables fixed by the bounds are eliminated: nb_points is checked
+        # against the number of FREE variables
+        n_orig = int(rng.integers(2, 5))
+        nfix = int(rng.integers(1, n_orig))
+        n = n_orig - nfix
+        spec = base_spec(n_orig)
+        lb = np.full(n_orig, -5.0)
+        ub = np.full(n_orig, 5.0)
+        fixed = rng.choice(n_orig, nfix, replace=False)
+        lb[fixed] = ub[fixed] = 0.25
+        spec["bounds"] = {"lb": lb.tolist(), "ub": ub.tolist(),
+                          "form": "Bounds"}
+        hi_red = (n + 1) * (n + 2) // 2
+        hi_orig = (n_orig + 1) * (n_orig + 2) // 2
+        cands = [("below", n), ("at_lo", n + 1), ("typical", min(2 * n + 1,
+                                                                 hi_red)),
+                 ("at_hi", hi_red), ("above", hi_red + 1),
+                 ("orig_typical", 2 * n_orig + 1), ("orig_hi", hi_orig)]
+        pos, npt = cands[int(rng.integers(len(cands)))]
+        spec["options"] = {"nb_points": npt, "maxfev": 3 * n_orig + 8}
+        supplied = dict(spec["options"])
+        rec = mrun.run(spec)
+        judge(n, supplied, rec, viols, info)
+        for v in viols:
+            v["witness"]["mechanism"] = "npt_fixed:" + pos
+        nt = f"npt_fixed|n{n_orig}|fix{nfix}|{pos}"
+        sample = {"n_orig": n_orig, "fixed": nfix, "nb_points": npt,
+                  "outcome": "ValueError" if isinstance(rec.exc, ValueError)
+                  else ("ran" if rec.exc is None else type(rec.exc).__name__)}
+    elif fam == "reuse":
+        # the SAME options dict object passed to two calls (different
+        # dimensions / coupled settings): the second call must behave as with
+        # a fresh copy (nothing completed by the first call may stick)
+        import cobyqa
+        from vlib import ctx as _ctx
+        n1, n2 = [int(v) for v in rng.choice([1, 2, 3, 5, 6], 2,
+                                             replace=False)]
+        base = [{"disp": False}, {"maxfev": 40}, {"radius_final": 1e-3},
+                {"radius_init": 0.5}, {"scale": False},
+                {"feasibility_tol": 1e-6}][int(rng.integers(6))]
+        shared = dict(base)
+        outs = []
+        for n_, opt in ((n1, shared), (n2, shared), (n2, dict(base))):
+            r = _ctx.Run()
+            with warnings.catch_warnings():
+                warnings.simplefilter("ignore")
+                with _ctx.active(r):
+                    try:
+                        res = cobyqa.minimize(
+                            lambda x: float(np.sum((x - 0.3) ** 2)),
+                            np.zeros(n_), options=opt)
+                        outs.append(("ok", res.x.tobytes(), int(res.nfev),
+                                     int(res.status),
+                                     dict(r.settings.get("options", {}))))
+                    except Exception as exc:  # noqa: BLE001
+                        outs.append(("exc", type(exc).__name__,
+                                     str(exc)[:100]))
+        info["calls"] = 3
+        info["ran"] = 1
+        if outs[1][:4] != outs[2][:4]:
+            viols.append(V("options_dict_reuse",
+                           f"options dict {base} reused after a call with "
+                           f"n={n1}: the call with n={n2} gives "
+                           f"{outs[1][:4]!r}, with a fresh dict "
+                           f"{outs[2][:4]!r}", mechanism="reuse"))
+        elif outs[1][0] == "ok" and outs[1][4] != outs[2][4]:
+            viols.append(V("options_dict_reuse",
+                           f"options dict {base} reused: completed options "
+                           f"differ from those of a fresh dict",
+                           mechanism="reuse:completed"))
+        if shared != base:
+            viols.append(V("options_dict_modified",
+                           f"the options dict passed in was modified: "
+                           f"{base} -> {sorted(shared)}",
+                           mechanism="reuse:modified"))
+        nt = f"reuse|{sorted(base)}|{n1}|{n2}"
+        sample = {"options": base, "n": [n1, n2]}
     elif fam == "npt_low":
         # nb_points below n+1 (also fractional) together with something that
         # ends the run during the initial sampling: still a ValueError
